@@ -82,7 +82,52 @@ def h(*xs):
 TIME_FUNCS = ["TimeToStr", "StrToTime", "StrToDate", "StrToUnix", "UnixToStr", "TsOrDsToDate"]
 
 
-def time_inputs(dialect, frac, seed):
+def time_tables():
+    """TIME_MAPPING / INVERSE_TIME_MAPPING of every dialect of the working tree, strings as character lists (for TimeFmt.tla)."""
+    from sqlglot.dialects import DIALECT_MODULE_NAMES
+    from sqlglot.dialects.dialect import Dialect
+
+    out = []
+    for name in [""] + sorted(DIALECT_MODULE_NAMES):
+        d = Dialect.get_or_raise(name or None)
+        fwd, inv = d.TIME_MAPPING or {}, d.INVERSE_TIME_MAPPING or {}
+        if fwd:
+            out.append({"name": name or "base", "fwd": [[list(k), list(v)] for k, v in sorted(fwd.items())], "inv": [[list(k), list(v)] for k, v in sorted(inv.items())]})
+    return out
+
+
+def parse_timefmt(stdout):
+    """The <<"T", dialect, string, forward image, Deviates, NonIdempotent>> tuples TimeFmt.tla prints (TLC wraps long tuples)."""
+    import re
+
+    rows, bad = {}, 0
+    for m in re.finditer(r'<<\s*"T",', stdout):
+        j = m.start()
+        depth, k = 0, j
+        while k < len(stdout):
+            if stdout.startswith("<<", k):
+                depth += 1
+                k += 2
+            elif stdout.startswith(">>", k):
+                depth -= 1
+                k += 2
+                if depth == 0:
+                    break
+            else:
+                k += 1
+        t = re.sub(r"\s+", " ", stdout[j:k])
+        mm = re.match(r'<<\s*"T", "([^"]*)", (<<.*?>>|<<\s*>>), (<<.*?>>|<<\s*>>), (TRUE|FALSE), (TRUE|FALSE)\s*>>$', t)
+        if not mm:
+            bad += 1
+            continue
+        unesc = lambda x: re.sub(r"\\(.)", r"\1", x)  # noqa: E731 - TLC escapes quotes and backslashes inside strings
+        s_ = "".join(unesc(x) for x in re.findall(r'"((?:[^"\\]|\\.)*)"', mm.group(2)))
+        f_ = "".join(unesc(x) for x in re.findall(r'"((?:[^"\\]|\\.)*)"', mm.group(3)))
+        rows[(mm.group(1), s_)] = (f_, mm.group(4) == "TRUE", mm.group(5) == "TRUE")
+    return rows, bad
+
+
+def time_inputs(dialect, frac, seed, extra_fmts=()):
     """Native time-format texts of a dialect: every key of its TIME_MAPPING alone and in pairs, under each format function."""
     from sqlglot import exp
     from sqlglot.dialects.dialect import Dialect
@@ -97,6 +142,7 @@ def time_inputs(dialect, frac, seed):
                 fmts.append(f"{x}-{y}")
                 fmts.append(f"{x} {y}:%M")
                 fmts.append(f"{x}{y}")  # adjacent tokens: the tries' longest match decides where one ends
+    fmts += [f for f in extra_fmts if f not in fmts]
     out = []
     for fn in TIME_FUNCS:
         cls = getattr(exp, fn)
